@@ -65,6 +65,9 @@ type Chan struct {
 	buf    []Value
 	cap    int
 	closed bool
+	// scheduler bookkeeping (-sched): receives completed, receivers currently waiting
+	recvSeq     int
+	recvWaiting int
 }
 
 type UnsafePtr struct {
